@@ -357,6 +357,8 @@ fn run(ctx: &RunCtx) {
     let avoid_gap = ctx.avoid("multiline-comment-gap");
     let avoid_locals = ctx.avoid("local-multiline-name-list");
     let avoid_recv = ctx.avoid("method-call-multiline-receiver");
+    let avoid_compound_target = ctx.avoid("compound-target-over-several-lines");
+    AVOID_COMPOUND_TARGET.store(avoid_compound_target, std::sync::atomic::Ordering::Relaxed);
     let n = ctx.tier.pick(40_000, 300_000);
     ctx.search("programs", n, 700, |tape, st| {
         let mut t = Tape::new(tape);
@@ -370,6 +372,7 @@ fn run(ctx: &RunCtx) {
         let mut lo = LayoutOpts::all(luau);
         lo.respell_literals = false;
         lo.trailing_newline = t.bool(200);
+        lo.plain_compound_targets = avoid_compound_target;
         let (source, ls) = luaprint::print_layout_stats(&block, &mut t, &lo);
         if crate::luasyn::parse::parse_with_options(&source, Mode::Luau, crate::luasyn::parse::ParseOptions { check_loop_context: false, check_vararg_context: false }).is_err() {
             return CaseResult::Discard("harness: printed text does not parse (printer/parser gap)");
@@ -484,6 +487,8 @@ impl BundleCase {
 
 /// one file of a bundled project: a generated tree with markers `"@<index>L<line>"`, `require`s of
 /// later modules spliced in at top level, and (modules) a final `return` of exactly one value
+static AVOID_COMPOUND_TARGET: std::sync::atomic::AtomicBool = std::sync::atomic::AtomicBool::new(false);
+
 fn gen_bundle_file(t: &mut Tape, index: usize, modules: usize) -> String {
     let (mut block, luau) = match t.weighted(&[3, 4, 3]) {
         0 => (gen_tree(t, &SynOpts::lua51()).0, false),
@@ -514,6 +519,7 @@ fn gen_bundle_file(t: &mut Tape, index: usize, modules: usize) -> String {
     let mut lo = LayoutOpts::all(luau);
     lo.respell_literals = false;
     lo.trailing_newline = index > 0 || t.bool(200);
+    lo.plain_compound_targets = AVOID_COMPOUND_TARGET.load(std::sync::atomic::Ordering::Relaxed);
     let mut text = luaprint::print_layout(&block, t, &lo);
     if index > 0 && !text.ends_with('\n') {
         text.push('\n');
